@@ -111,6 +111,27 @@ Definition f64_syntax (s : text) : bool :=
       end
   end.
 
+(* ---------- does the decimal literal overflow binary64? ----------
+   str::parse::<f64> is correctly rounded (round to nearest, ties to even): the result is infinite
+   exactly when the denoted magnitude  m * 10^e  is >= 2^1024 - 2^970 (the midpoint between the
+   largest finite double and 2^1024; the tie goes to the even mantissa, i.e. up).
+   Exact integer comparison; the two shortcuts only keep 10^e small. *)
+Definition lit_exp (ex : text) : Z :=
+  match ex with
+  | [] => 0
+  | c :: r => if c =? c_minus then - dec_val 0 r else if c =? c_plus then dec_val 0 r else dec_val 0 ex
+  end.
+Definition f64_overflow_threshold : Z := 2 ^ 1024 - 2 ^ 970.
+Definition dec_overflows (ints frac : text) (ex : Z) : bool :=
+  let m := dec_val 0 (ints ++ frac) in
+  let e := ex - len frac in
+  let nd := len ints + len frac in
+  if m =? 0 then false
+  else if 400 <? e then true
+  else if nd + e <=? 308 then false
+  else if 0 <=? e then f64_overflow_threshold <=? m * 10 ^ e
+  else f64_overflow_threshold * 10 ^ (- e) <=? m.
+
 (* ---------- parse_number ---------- *)
 Record pnum : Type := {
   p_neg : bool;          (* sign = -1.0 *)
@@ -161,7 +182,7 @@ Definition parse_number (dec grp : Z) (value : text) : option pnum :=
           | [] =>
               let lit := ints ++ (if dot then c_dot :: frac else [])
                               ++ (match ex with [] => [] | _ :: _ => c_e :: ex end) in
-              if f64_syntax lit then
+              if f64_syntax lit && negb (dec_overflows ints frac (lit_exp ex)) then
                 Some {| p_neg := neg; p_int := ints; p_seps := idxs; p_dot := dot; p_frac := frac;
                         p_sci := sci; p_exp := ex; p_decdigits := decdigits; p_lit := lit |}
               else None
@@ -331,7 +352,7 @@ Definition try_currency (dec grp : Z) (cur value : text) : option (option recog)
       Some (match parse_number dec grp (trim p) with
             | None => None
             | Some n =>
-                if p_sci n then Some {| r_value := VNum n false false; r_kind := KCurrency cur true; r_fmt := Some fmt_sci |}
+                if p_sci n then Some {| r_value := VNum n false true; r_kind := KCurrency cur true; r_fmt := Some fmt_sci |}
                 else if 0 <? p_decdigits n
                 then Some {| r_value := VNum n false true; r_kind := KCurrency cur true; r_fmt := Some (cur ++ fmt_g2) |}
                 else Some {| r_value := VNum n false true; r_kind := KCurrency cur true; r_fmt := Some (cur ++ fmt_g0) |}
